@@ -263,7 +263,7 @@ class World:
             if got_err is None:
                 how = "the stored (stale) metadata" if got_meta == stored else f"{got_meta}"
                 msgs.append(f"inherited eclass no longer exists ({self.why_invalid()}); a cacheless read fails ({fresh[1][:80]}) but the read returned {how}")
-            self.msgs = msgs
+            self.msgs = [m.replace(self.root, "<root>") for m in msgs]
             self.last = "error"
             return
         if got_err is not None:
@@ -315,7 +315,7 @@ class World:
             msgs.append(f"entry file after the read differs from the expected entry: {_d(on_disk or {}, exp or {})}")
         elif not self.entry_valid():
             msgs.append(f"entry stored by the read does not validate against the files ({self.why_invalid()})")
-        self.msgs = msgs
+        self.msgs = [m.replace(self.root, "<root>") for m in msgs]
         self.last = outcome
 
     def why_invalid(self):
@@ -491,6 +491,10 @@ class Explorer:
             ev_cls = "populate:" + w.last
         else:
             parent = self.build(hist[:-1])
+            if parent is None or parent["msgs"]:
+                # a violating state is reported (by the partition that owns it) but never extended: model and files disagree there
+                st = self.states[hist] = None
+                return st
             w.restore(parent["snap"])
             if hist[-1] not in w.enabled(self.events):
                 st = self.states[hist] = None
@@ -502,7 +506,7 @@ class Explorer:
             ev_cls = f"{hist[-1]}:{w.last}" if hist[-1] == "R" else None
         snap = w.snapshot()
         canon = w.canon()
-        enabled = w.enabled(self.events)
+        enabled = [] if msgs else w.enabled(self.events)
         # probe: a read in this state (its effects are discarded: children restore `snap`)
         w.read(self.memo_fresh)
         self.reads += 1
@@ -517,6 +521,8 @@ class Explorer:
             msgs += [f"second probe read: {m}" for m in w.msgs]
         cls = f"{self.backend}|after {hist[-1] if hist else 'populate'}|probe {probe_outcome if not msgs else 'VIOL'}"
         self.regens += w.regens
+        if msgs:
+            enabled = []
         st = self.states[hist] = {"snap": snap, "canon": canon, "enabled": enabled, "msgs": msgs, "cls": cls, "ev_cls": ev_cls}
         return st
 
